@@ -142,10 +142,23 @@ decreasing_by
   simp [Iter.ne, Iter.eq] at h
   exact h hc
 
+/-- `for (it = end(); it != begin(); ) { --it; visit(*it); }` — a backward walk with the prefix decrement; `cur` is the
+    running iterator's index (begin() has index 0). -/
+def backLoop {C : Type} (reshape : C → U64 → C) (dims : C) (cur : U64) : List C :=
+  if h : cur ≠ 0 then reshape dims (cur - 1) :: backLoop reshape dims (cur - 1) else []
+termination_by cur.toNat
+decreasing_by
+  have h0 : cur.toNat ≠ 0 := fun h0 => h (UInt64.toNat_inj.mp (by simpa using h0))
+  have h1 : (1 : U64) ≤ cur := by rw [UInt64.le_iff_toNat_le]; simp; omega
+  rw [UInt64.toNat_sub_of_le _ _ h1]; simp; omega
+
 /-- `for (auto c : index_sequence_2D(dims))` : begin() has index 0, end() has index total_indices() -/
 def iterate2 (dims : V2 U64) : List (V2 U64) := iterLoop reshape2 dims (total2 dims) 0
 /-- `for (auto c : index_sequence_3D(dims))` -/
 def iterate3 (dims : V3 U64) : List (V3 U64) := iterLoop reshape3 dims (total3 dims) 0
+/-- the backward walks of the two sequences -/
+def backward2 (dims : V2 U64) : List (V2 U64) := backLoop reshape2 dims (total2 dims)
+def backward3 (dims : V3 U64) : List (V3 U64) := backLoop reshape3 dims (total3 dims)
 
 /-! ## array3D/for_each.h -/
 
